@@ -142,6 +142,14 @@ func runC15(t *testing.T, s C15Scenario) (res Result) {
 				e.getter.set(func() { e.getter.ForgedAt = forgedAt })
 			}
 		}
+		dd := uint64(s.D)
+		budget := int(dd)*(bits.Len64(dd)+2) + 8
+		e.getter.set(func() {
+			e.getter.MaxByHeight = budget
+			if s.Getter != "fail_at" {
+				e.getter.byHeightSeen = 0
+			}
+		})
 		callsBefore := len(e.getter.Calls())
 		t0 := time.Now()
 		var verr error
@@ -231,7 +239,9 @@ func runC15(t *testing.T, s C15Scenario) (res Result) {
 			return
 		}
 		// heal and let it sync: the store ends up as the canonical run, at the candidate if accepted
-		e.getter.set(func() { e.getter.ByHeightFail, e.getter.ForgedAt, e.getter.HeadMode = -1, 0, "" })
+		e.getter.set(func() {
+			e.getter.ByHeightFail, e.getter.ForgedAt, e.getter.HeadMode, e.getter.MaxByHeight = -1, 0, "", 0
+		})
 		if !e.quiesce(400) {
 			res.failf("HARNESS: no quiescence after the attempt")
 			return
